@@ -36,7 +36,7 @@ fn tuple_kinds() -> Vec<(&'static str, Kind)> {
 }
 
 // identifiers with `_` directly before a digit are left out: whether that digit run is "split off" once more is not settled by the statement
-const IDENT_POOL: [&str; 12] = ["Hello2You", "HTTPServer", "A1", "Utf8To16", "X_y", "Ab2c3", "V1", "Café2", "Ünï3x", "r#try", "RParen", "R_x"];
+const IDENT_POOL: [&str; 15] = ["Hello2You", "HTTPServer", "A1", "Utf8To16", "X_y", "Ab2c3", "V1", "Café2", "Ünï3x", "r#try", "RParen", "R_x", "x86", "arm64v", "_res"];
 
 fn alphabet(n: usize) -> Vec<Dev> {
     let mut d: Vec<Dev> = Vec::new();
@@ -87,6 +87,18 @@ fn alphabet(n: usize) -> Vec<Dev> {
         true
     }));
     d.extend(crate::devs::rich_generic_devs(true));
+    d.push(dev("context: a user type called `Option` is declared next to the enum", &["ctx", "gen", "evis", "dvis"], |s| {
+        let mentions = |t: &FieldTy| t.ty().contains("Option<");
+        if s.variants.iter().any(|v| match &v.kind {
+            Kind::Unit => false,
+            Kind::Tuple(f) => f.iter().any(mentions),
+            Kind::Named(f) => f.iter().any(|x| mentions(&x.ty)),
+        }) {
+            return false;
+        }
+        s.syntax.push("own-option-type".into());
+        true
+    }));
     d.extend(crate::devs::syntax_devs(false, false, true, false).into_iter().filter(|d| d.label.contains("doc(hidden)")));
             d.extend(crate::devs::context_devs());
     d
